@@ -18,10 +18,10 @@ import (
 	"github.com/vektah/gqlparser/v2/parser"
 	"github.com/vektah/gqlparser/v2/validator"
 
+	"verif/internal/diffrun"
 	"verif/internal/drive"
 	"verif/internal/ev"
 	"verif/internal/opgen"
-	"verif/internal/ref"
 	"verif/internal/univ"
 	"verif/work/farm/cur/registry"
 )
@@ -137,60 +137,22 @@ func main() {
 }
 
 func runCase(rep *ev.Reporter, srv *drive.Server, env *univ.Env, doc *ast.QueryDocument, op *opgen.Op, vars map[string]any, p *univ.SeedPlan, cid caseID) bool {
-	omit, _ := env.Probe.Options["nullable_input_omittable"].(bool)
-	want := ref.Execute(env, p, doc, op.OpName, vars, ref.Options{Omittable: omit})
-	run := &univ.Run{Plan: p}
-	before := srv.Recovers.Load()
-	got := srv.Run(context.Background(), run, op.Query, op.OpName, vars, 20*time.Second)
-	_ = before
-
-	fail := func(sig, why string, extra any) {
-		rep.Violate(sig, map[string]any{"case": cid, "why": why, "detail": extra})
-	}
-	if got.TimedOut {
+	o := diffrun.Compare(context.Background(), env, srv, doc, op.Query, op.OpName, vars, p, nil, 30*time.Second)
+	if o.Mismatch == "timeout" {
 		rep.Inconclusive("operation did not finish within the watchdog: " + cid.Query)
 		return false
 	}
-	if want.RequestError != "" || len(got.RequestErrors) > 0 {
-		if (want.RequestError != "") != (len(got.RequestErrors) > 0) {
-			fail("", "request-level refusal differs", map[string]any{"ref": want.RequestError, "real": got.RequestErrors})
-		}
+	if o.Mismatch != "" {
+		rep.Violate("", map[string]any{"case": cid, "why": o.Mismatch + " differ from the reference: " + o.Detail, "detail": o.Describe()})
+		return false
+	}
+	want := o.Want
+	if want.RequestError != "" {
 		rep.Count("request_refused", 1)
 		return false
 	}
-	if len(got.Payloads) != 1 {
-		fail("", fmt.Sprintf("expected exactly one payload, got %d", len(got.Payloads)), nil)
-		return false
-	}
-	pl := got.Payloads[0]
-	if !pl.ParseOK {
-		fail("", "data is not valid JSON", string(pl.Raw))
-		return false
-	}
-	match := func(w *ref.Result) (string, string) {
-		if d := diffData(w, pl); d != "" {
-			return "data", d
-		}
-		if d := drive.DiffErrors(w.Errors, pl.Errors); d != "" {
-			return "errors", d
-		}
-		if d := drive.DiffStrings(w.Invocations, got.Invocations); d != "" {
-			return "invocations", d
-		}
-		return "", ""
-	}
-	what, d := match(want)
-	if what != "" && want.Stats.Directives > 0 {
-		alt := ref.Execute(env, p, doc, op.OpName, vars, ref.Options{Omittable: omit, DirInnerFirst: true})
-		if w2, _ := match(alt); w2 == "" {
-			what, d = "", ""
-			rep.Count("matched_with_inner_first_directive_order", 1)
-		}
-	}
-	if what != "" {
-		fail("", what+" differ from the reference: "+d, map[string]any{
-			"ref_data": render(want.Data), "real_data": string(pl.Raw), "ref_errors": want.Errors, "real_errors": pl.Errors,
-			"invocation_diff": drive.DiffStrings(want.Invocations, got.Invocations)})
+	if o.DirOrder == "inner-first" {
+		rep.Count("matched_with_inner_first_directive_order", 1)
 	}
 	st := want.Stats
 	rep.Count("fields_executed", int64(st.Fields))
@@ -211,14 +173,7 @@ func runCase(rep *ev.Reporter, srv *drive.Server, env *univ.Env, doc *ast.QueryD
 	}
 	rep.Sample(map[string]any{"probe": cid.Probe, "query": cid.Query, "variables": cid.Vars, "plan_seed": p.Seed,
 		"errors": len(want.Errors), "fields": st.Fields})
-	return st.Fragments+st.TypeCondSkips+st.SkipInclude+st.Merged+st.ListDepthMax+len(want.Errors)+st.DirBlocked > 0
-}
-
-func diffData(w *ref.Result, pl *drive.Payload) string {
-	if pl.Data == nil {
-		return "data member absent"
-	}
-	return sjsonDiff(w, pl)
+	return diffrun.NonTrivial(want)
 }
 
 func doReplay(rep *ev.Reporter, path string) int {
